@@ -125,7 +125,12 @@ def flowOfJson (j : Json) : Except String FlowCfg := do
   return { id := (optStr? j "id").getD "", elements := els.toArray, labels := labels,
            params := ← paramsOfJson (← j.getObjVal? "params"), returnMembers := ← paramsOfJson (← j.getObjVal? "returns"),
            loopId := optStr? j "loop_id", loopPriority := prio,
-           metaTags := ← (← arrOf j "meta").toList.mapM (·.getStr?) }
+           metaTags := ← (← arrOf j "meta").toList.mapM fun p => do
+             let (t, v) ← pairOf p
+             let mv ← (if let .ok b := v.getObjVal? "b" then do pure (MetaVal.bool (← b.getBool?))
+                       else if let .ok e := v.getObjVal? "e" then do pure (MetaVal.str (← exprOfJson e))
+                       else pure MetaVal.other : Except String MetaVal)
+             pure (← t.getStr?, mv) }
 
 def progOfJson (j : Json) : Except String Prog := do
   return { flows := ← (← arrOf j "flows").toList.mapM flowOfJson }
